@@ -4,7 +4,7 @@ CONSTANTS
     Depth = 0
     MaxCalls = 3
     Calls <- McCalls
-    Probes <- McCalls
+    Probes <- TreeCalls
     Segs <- QuickSegs
     Holds = {"now", "call", "session"}
     Fixed = TRUE
